@@ -4,7 +4,7 @@ import re
 from analysis import (Prov, Guards, FlagEngine, fmt, fmt_short, walk, roots, short, comparison, find_calls, callee_matches,
                       must_pass, path_to, describe_path, linear, normalised_cmp, const_int_of, cmp_intervals, propagate)
 from facts import AnchorError, strip_closure
-from harness import Rule
+from harness import Rule, guarded
 
 PID = "C16"
 EXPLANATION = (
@@ -416,4 +416,5 @@ def r3(ctx):
 
 
 def run(ctx):
-    return [r1(ctx), r2(ctx), r3(ctx)]
+    G = lambda l, f, *a: guarded("C16." + l, f, ctx, *a)
+    return G("R1", r1) + G("R2", r2) + G("R3", r3)
